@@ -27,7 +27,7 @@ static bool has_room(const M& m, const MElem<LT::N>& e)
     return m.n < m.cap && live_payload<LT>(m) + payload_bytes<LT>(e) <= m.budget;
 }
 
-static Vec build(M& m, usize kmin, bool same_lengths)
+static Vec build(M& m, usize kmin, bool same_lengths, usize kmax = K0)
 {
     for (usize j = 0; j < LT::N; ++j)
     {
@@ -39,7 +39,7 @@ static Vec build(M& m, usize kmin, bool same_lengths)
         }
     }
     usize k = verif_nondet_size();
-    verif_assume(k >= kmin && k <= K0);
+    verif_assume(k >= kmin && k <= kmax);
     k = verif_fork(k);
     m.cap = k;
     m.budget = k * SMAX * 8 * LT::NVARY;
@@ -169,7 +169,13 @@ static void part1()
     inv<LT>(v, m, 200);
     // read back through iterator subscripting, operator-> and a const_iterator converted from an iterator
     const Vec& cv = v;
-    typename Vec::const_iterator cit = v.begin();
+    // a const_iterator that was bound to ANOTHER vector (other sizes, other block) and is then re-seated by the converting
+    // assignment from a mutable iterator denotes the elements of the new vector
+    M mw{};
+    Vec w = build(mw, 1, false, 1);
+    typename Vec::const_iterator cit = w.begin();
+    check_elem<LT>(*cit, mw.e[0], 390);
+    cit = v.begin();
     for (usize s = 0; s < KMAX; ++s)
     {
         if (s < m.n)
@@ -178,6 +184,13 @@ static void part1()
             check_elem<LT>(*(cv.cbegin() + s).operator->().operator->(), m.e[s], 300);
             typename Vec::const_reference cr = v[s];  // const reference converted from a mutable one
             check_elem<LT>(cr, m.e[s], 300);
+            typename Vec::iterator mit = w.begin();
+            mit = v.begin() + s;  // same-constness assignment across vectors
+            check_elem<LT>(*mit, m.e[s], 300);
+            typename Vec::const_iterator cit2 = w.cbegin();
+            cit2 = mit;
+            check_elem<LT>(*cit2, m.e[s], 300);
+            verif_assert(cit2 == cv.cbegin() + s && cit2.index() == s, 391);
         }
     }
     structured_bindings(v, i);
